@@ -37,6 +37,7 @@ type Scenario struct {
 type ExploreCfg struct {
 	Seed      uint64      `json:"seed"`
 	PreemptP  float64     `json:"preempt_p"`
+	StallP    float64     `json:"stall_p,omitempty"`
 	DelayP    float64     `json:"delay_p,omitempty"`
 	FaultP    float64     `json:"fault_p"`
 	BiasP     float64     `json:"bias_p,omitempty"`
@@ -97,6 +98,7 @@ type runner struct {
 	imp           *importTrack
 	started       map[string]*Op
 	importCommits map[string]int
+	committedBy   map[rowKey]string // (ids check) which request's commit added the row
 }
 
 func (r *runner) curInc() *Incarnation {
@@ -314,6 +316,12 @@ func (r *runner) afterStep() {
 			}
 		}
 		for _, wr := range rec.Writes {
+			if before != nil && wr.Before == nil && wr.After != nil && (wr.Key.Table == "tx" || wr.Key.Table == "log") {
+				if r.committedBy == nil {
+					r.committedBy = map[rowKey]string{}
+				}
+				r.committedBy[wr.Key] = opIDOf(rec.Task)
+			}
 			if wr.After == nil {
 				delete(r.state, wr.Key)
 			} else {
@@ -475,7 +483,7 @@ func runInBubble(t *testing.T, sc *Scenario, plan *Plan, ex *ExploreCfg, res *Ru
 		for _, k := range ex.Kinds {
 			kinds[k] = true
 		}
-		explore = &Explore{Sched: base.Derive(1), Fault: base.Derive(2), PreemptP: ex.PreemptP, DelayP: ex.DelayP, FaultP: ex.FaultP, MaxFaults: ex.MaxFaults, Kinds: kinds, BiasP: ex.BiasP}
+		explore = &Explore{Sched: base.Derive(1), Fault: base.Derive(2), PreemptP: ex.PreemptP, StallP: ex.StallP, DelayP: ex.DelayP, FaultP: ex.FaultP, MaxFaults: ex.MaxFaults, Kinds: kinds, BiasP: ex.BiasP}
 	}
 
 	w.scheduling = true
@@ -658,6 +666,9 @@ func (r *runner) finalChecks() {
 	}
 	if r.has("accounts") {
 		r.addV(checkAccounts(r, views)...)
+	}
+	if r.has("reads-stay-in-ledger") {
+		r.addV(checkReadsStayInLedger(r, views)...)
 	}
 	if r.has("feature-equivalence") {
 		r.addV(checkFeatureEquivalence(r, views)...)
